@@ -298,7 +298,9 @@ theorem pushToListener (h : KInv cfg k) (child : Nat) (l : SockAddr) : KInv cfg 
     · rename_i ls hls
       split
       · exact h
-      · exact h.setSock _ (fun t ht => h.tcb hls ht)
+      · rename_i li _
+        exact (h.setSock _ (s := { ls with listen := some { li with ready := li.ready ++ [child] } })
+          (fun t ht => h.tcb hls ht)).congr rfl rfl
 
 theorem handleOnConnection (h : KInv cfg k) (fd : Nat) (l r : SockAddr) (s : Seg) :
     KInv cfg (Kernel.handleOnConnection cfg k fd l r s) := by
